@@ -96,6 +96,13 @@ def h_ignore(fat: int, fk: int, cut: int, d1: int, d2: int) -> int:
         miss = call(healthy, d1, d2)
     except TypeError:
         return skip("shape-rejected-when-healthy")   # e.g. PooledClient.gets(key, default=...): a C16 matter
+    routes = None
+    if STACK == "hash2" and SHAPE in ("get_many", "gets_many"):
+        # the healthy result on populated servers, and which keys each server was asked for
+        servers1, _ = ops.fresh_servers(2)
+        full = call(_client(NetSim(servers1, None)), d1, d2)
+        routes = [frozenset(k.decode() for cmd in s.cmdlog for k in cmd.keys if k.decode() in full) for s in servers1.values()]
+        routes = [r for r in routes if r]
     # (2) the same call under the fault plan
     servers, _ = ops.fresh_servers(2 if STACK == "hash2" else 1)
     extra = None
@@ -119,7 +126,16 @@ def h_ignore(fat: int, fk: int, cut: int, d1: int, d2: int) -> int:
         except Exception as e:
             return viol(STACK, SHAPE, MODE, "raised", type(e).__name__, "with ignore_exc=True (call", i + 1, ")")
         faulted = MODE != "fault" or (plan is not None and plan.fired)
-        if faulted:
+        if faulted and routes is not None and MODE == "fault":
+            # two servers, several keys: the single fault makes one server's keys miss; the other server's keys are
+            # still served.  "What the call returns for a miss" is therefore: the keys of exactly one server absent.
+            if type(got) is not type(full) or any(k not in full or full[k] != v for k, v in got.items()):
+                return viol(STACK, SHAPE, MODE, "returned", repr(got), "which is not part of the healthy result", repr(full))
+            lost = frozenset(k for k in full if k not in got)
+            if lost not in routes:
+                return viol(STACK, SHAPE, MODE, "returned", repr(got), "after one server failed: the absent keys", sorted(lost),
+                            "are not the keys of one server", [sorted(r) for r in routes])
+        elif faulted:
             same = (got == miss) and (type(got) is type(miss))
             if not same:
                 if "C07-miss-shapes" in KNOWN:
